@@ -233,6 +233,41 @@ def t2_dispatch(c1: int, c2: int, n: int) -> bool:
     return 1 <= len(seen) <= 3 and seen[0] == 'a\n'
 
 
+OPENERS = {'paragraph': ['a\n'], 'quote': ['> q\n'], 'item': ['- i\n'], 'ordered': ['1. i\n'], 'indented': ['    c\n'], 'fence': ['```\n'],
+           'table': ['|a|b|\n', '|-|-|\n'], 'html': ['<div>\n'], 'comment': ['<!--\n'], 'definition': ['[l]: /u\n'], 'heading': ['# h\n'],
+           'quote-item': ['> - i\n'], 'item-quote': ['- > q\n']}
+
+
+@lemma('T2.continuation', 'C01', quick=[{'open': o, 'k': k} for o in sorted(OPENERS) for k in (1, 2)],
+       thorough=[{'open': o, 'k': k} for o in sorted(OPENERS) for k in (1, 2, 3)], timeout=600, per_path=90,
+       covers=['block_tokenizer.py:tokenize_block', 'block_token.py:Quote.read', 'block_token.py:ListItem.read', 'block_token.py:Paragraph.read',
+               'block_token.py:BlockCode.read', 'block_token.py:CodeFence.read', 'block_token.py:Table.read', 'block_token.py:HtmlBlock.read', 'block_token.py:Footnote.read',
+               'block_token.py:Quote.convert_leading_tabs', 'block_token.py:ListItem.parse_continuation'],
+       note='block phase only: an opened construct (paragraph, quote, list item, code, table, HTML block, definition, nested containers) followed by ONE symbolic line (k code points over Σ, no newline) and a closing line: '
+            'tokenize_block returns (no exception, every path ends) -- the continuation / lazy-continuation / interruption tests of every reader on an arbitrary next line')
+def t2_continuation(c1: int, c2: int, c3: int) -> bool:
+    """
+    pre: all_ok(cp_ok, P('k'), c1, c2, c3) and no_nl(P('k'), c1, c2, c3)
+    post: _
+    """
+    from mistletoe import block_token as bt, block_tokenizer as btk, token as tokmod
+    x = S(P('k'), c1, c2, c3)
+    lines = OPENERS[P('open')] + [x + '\n', 'z\n']
+    types = [bt.HtmlBlock] + [getattr(bt, n) for n in bt.__all__]
+    root = bt.Document.__new__(bt.Document)
+    root.footnotes = {}
+    saved = bt._token_types
+    bt._token_types = types
+    tokmod._root_node = root
+    try:
+        pb = btk.tokenize_block(lines, types)
+    finally:
+        bt._token_types = saved
+        tokmod._root_node = None
+        bt.Paragraph.parse_setext = True
+    return isinstance(pb, list)
+
+
 # -------------------------------------------------------------------------------- T3 constructs
 
 SKELETONS = {
